@@ -61,6 +61,10 @@ def run_history(case: dict, oracle: Oracle, res: core.CaseResult, *, check_from:
         if ap.result == 'unresolved':
             res.outcomes['unresolved'] += 1
             return None
+        if not checked:
+            st = root.token_store      # replayed prefix: repeat the position reads a real history would have made
+            for t in st:
+                st.get_position(t)
         if checked:
             res.transitions += 1
             nviol = len(res.violations)
